@@ -42,11 +42,13 @@ def ScaledAreRegisters (es : List (List Nat × KVal)) : Prop :=
 theorem kaifa_obis_body (hF : ScaledCorrect) (es : List (List Nat × KVal))
     (h : ∀ p ∈ es, Obis6 p.1 ∧ p.2.WF) (hs : ScaledAreRegisters es) (hl : es.length ≤ 127) :
     Kaifa.decodeBody (encKaifaObis es) = .dict (kaifaObisExpected es) := by
+  have _ := hl
   exact KaifaRT.decodeBody_obis hF es h hs
 
 theorem kaifa_obis_frame (hF : ScaledCorrect) (hd : Header) (hh : hd.WF) (es : List (List Nat × KVal))
     (h : ∀ p ∈ es, Obis6 p.1 ∧ p.2.WF) (hs : ScaledAreRegisters es) (hl : es.length ≤ 127) :
     Kaifa.decodeFrame (encHeader hd ++ encKaifaObis es) = .dict (kaifaObisExpected es) := by
+  have _ := hl
   exact KaifaRT.decodeFrame_obis hF hd hh es h hs
 
 end Amshan.C08
